@@ -212,44 +212,98 @@ def request_typestate(e: Engine, rep: Report, rule: str,
                     pair_vars.add(new)
                     changed = True
 
-        def is_resolve(n: Node) -> bool:
+        def resolved_paths(n: Node):
+            """variable paths a resolution call names (set / set_exception
+            on it, or a (result, envelope) pair given back to the queue)"""
             if n.kind != 'call' or not isinstance(n.ast.func, ast.Attribute):
-                return False
+                return []
             nm = n.ast.func.attr
             if nm in ('set', 'set_exception'):
-                return path_of(n.ast.func.value, n.frame) in res_vars
+                q = path_of(n.ast.func.value, n.frame)
+                return [q] if q in res_vars else []
+            out = []
             if nm in ('appendleft', 'append'):
                 # queue.appendleft((result, envelope))
                 for a in n.ast.args:
                     if isinstance(a, ast.Tuple):
                         for el in a.elts:
-                            if path_of(el, n.frame) in res_vars:
-                                return True
-            return False
+                            q = path_of(el, n.frame)
+                            if q in res_vars:
+                                out.append(q)
+            return out
 
-        def step(n: Node, label, st: str) -> str:
-            """status after leaving n through edge `label`."""
+        def live(names):
+            return ('live', frozenset(names))
+
+        def is_live(st):
+            return isinstance(st, tuple) and st[0] == 'live'
+
+        def is_requeued(st):
+            return isinstance(st, tuple) and st[0] == 'requeued'
+
+        def step(n: Node, label, st):
+            """status after leaving n through edge `label`.  A live request
+            is known by the names that stand for it: the poll() target, and
+            the parameters it was handed to.  Resolving another name (the
+            request of an earlier poll, kept by a caller's local) does not
+            settle it."""
             if n in polls and not isinstance(label, tuple):
-                return 'live'
+                tg = n.ast.targets[0]
+                first = tg.elts[0] if isinstance(tg, (ast.Tuple, ast.List)) \
+                    and tg.elts else tg
+                names = {path_of(first, n.frame)}
+                if isinstance(tg, (ast.Tuple, ast.List)):
+                    names |= {path_of(el, n.frame) for el in tg.elts}
+                return live(x for x in names if x)
+            if is_requeued(st):
+                # given back to the queue: another client will settle it
+                return st
+            if not is_live(st):
+                return st
+            names = st[1]
+            if n.kind == 'bind' and not isinstance(label, tuple):
+                x = n.extra
+                if not x.get('is_self') and x.get('arg') is not None:
+                    ap = path_of(x['arg'], x['arg_frame'])
+                    if ap in names:
+                        return live(names | {'%s#%d' % (x['param'],
+                                                        n.frame.id)})
+                return st
+            if n.kind == 'stmt' and isinstance(n.ast, ast.Assign) and \
+                    not isinstance(label, tuple) and \
+                    isinstance(n.ast.value, ast.Name):
+                vp = path_of(n.ast.value, n.frame)
+                if vp in names:
+                    new = set(names)
+                    for t in n.ast.targets:
+                        q = path_of(t, n.frame)
+                        if q:
+                            new.add(q)
+                            res_vars.add(q)
+                            pair_vars.add(q)
+                    return live(new)
             if n.kind == 'test' and label in ('T', 'F'):
                 t = n.ast
-                if path_of(t, n.frame) in pair_vars:
+                if path_of(t, n.frame) in names:
                     return st if label == 'T' else 'none'
                 if isinstance(t, ast.Call) and \
                         isinstance(t.func, ast.Attribute) and \
                         t.func.attr == 'ready' and \
-                        path_of(t.func.value, n.frame) in res_vars:
+                        path_of(t.func.value, n.frame) in names:
                     return 'done' if label == 'T' else st
                 if isinstance(t, ast.Compare) and len(t.ops) == 1 and \
                         isinstance(t.ops[0], (ast.Is, ast.IsNot)) and \
-                        path_of(t.left, n.frame) in pair_vars and \
+                        path_of(t.left, n.frame) in names and \
                         isinstance(t.comparators[0], ast.Constant) and \
                         t.comparators[0].value is None:
                     is_none = (label == 'T') == isinstance(t.ops[0], ast.Is)
                     return 'none' if is_none else st
                 return st
-            if is_resolve(n) and st == 'live':
+            if any(q in names for q in resolved_paths(n)):
                 # the resolution call itself is assumed not to fail
+                if n.ast.func.attr in ('appendleft', 'append') and \
+                        not isinstance(label, tuple):
+                    return ('requeued', names)
                 return 'done'
             return st
 
@@ -263,7 +317,7 @@ def request_typestate(e: Engine, rep: Report, rule: str,
                               lambda a, b: a | b)
         rep.evaluations += len(IN)
 
-        def witness(goal: Node, need_tokens) -> Optional[List]:
+        def witness(goal: Node, need_tokens, want=is_live) -> Optional[List]:
             """BFS over (node, status) from entry to goal with status
             'live'; optionally requires an exception edge with a token."""
             start = (g.entry.id, 'none', False)
@@ -275,7 +329,7 @@ def request_typestate(e: Engine, rep: Report, rule: str,
                 cur = work.popleft()
                 nid, st, tok = cur
                 n = nodes[nid]
-                if n is goal and st == 'live' and (tok or not need_tokens):
+                if n is goal and want(st) and (tok or not need_tokens):
                     found = cur
                     break
                 for label, s in n.succ:
@@ -297,6 +351,29 @@ def request_typestate(e: Engine, rep: Report, rule: str,
                 cur = pc
             return path[::-1]
 
+        # a request given back to the queue is not settled by this client
+        # any more (the client that takes it next will)
+        if only_exc is None:
+            for n in g.calls():
+                if not (isinstance(n.ast.func, ast.Attribute) and
+                        n.ast.func.attr in ('set', 'set_exception')):
+                    continue
+                qs = resolved_paths(n)
+                st = IN.get(n.id) or frozenset()
+                hit = [x for x in st if is_requeued(x) and
+                       any(q in x[1] for q in qs)]
+                if not hit:
+                    continue
+                w = witness(n, None, want=lambda x: is_requeued(x) and any(
+                    q in x[1] for q in qs))
+                rep.bad(rule, where, '`%s` after the request was given '
+                        'back' % n.text(40),
+                        'the client puts the request back on the queue and '
+                        'then settles it as well: the attempt is told that '
+                        'delivery failed while the next client takes the '
+                        'same request off the queue and delivers it - one '
+                        'request, two outcomes', loc=n.loc(),
+                        witness=dataflow.render_path(w, 18) if w else None)
         # obligations: every terminal and every re-poll
         sinks = [(g.exit, 'normal end of _run'),
                  (g.raise_exit, 'exception leaves _run')] + \
@@ -310,7 +387,7 @@ def request_typestate(e: Engine, rep: Report, rule: str,
                 rep.ok(rule, where, text, reason='not reachable',
                        nontrivial=False)
                 continue
-            bad = 'live' in st
+            bad = any(is_live(x) for x in st)
             w = None
             if bad:
                 w = witness(node, only_exc)
@@ -318,7 +395,8 @@ def request_typestate(e: Engine, rep: Report, rule: str,
                     bad = False   # live only on paths outside the restriction
             if not bad:
                 rep.ok(rule, where, text,
-                       reason='statuses on arrival: %s' % sorted(st),
+                       reason='statuses on arrival: %s' % sorted(
+                           x[0] if isinstance(x, tuple) else x for x in st),
                        loc=node.loc())
             else:
                 rep.bad(rule, where, text,
